@@ -752,7 +752,8 @@ def simplify_constrained_range(source: str) -> str:
         ),)
         templates = (gt_template, lt_template, gte_template, lte_template, eq_template)
 
-        if core.match_template(step, ast.Constant(value=int)) and step.value < 0:
+        if step != 1:
+            # Bounds can only be folded into the range when it visits every integer in order.
             continue
 
         redundant_conditions = set()
